@@ -342,6 +342,49 @@ func c16units(tier string) []mc.Unit {
 		r.AddTransitions(2)
 		r.AddNontrivial(2)
 	}})
+	// header prose: every sequence of one, two and three lines from a dictionary of prose lines (look-alikes of the
+	// supplier-table title and of supplier rows, bare angle brackets, very short and very long
+	// lines, tabs, blank lines) in front of the supplier table
+	us = append(us, mc.Unit{Name: "header-prose", Weight: 60, Run: func(r *mc.Recorder) {
+		title := "REBASE codes for commercial sources of enzymes"
+		dict := []string{"  " + title, title + "   ", "\t" + title, strings.ToUpper(title), title + ":", "see " + title + " below", "REBASE codes", "Notes", "x", "", "   ", "<", "<>", "1>", "                A        Fake Supplier Inc.", "\t\tB        Another one", "REBASE version 310                                              type31.310", strings.Repeat("long prose ", 500), "=-=-=-=-=-=-=-=", "Copyright (c)  Dr. Richard J. Roberts, 2023.   All rights reserved."}
+		recs := []c16rec{c16rec0(0), c16rec0(1)}
+		recs[0].supp, recs[1].supp = "BN", ""
+		body := string(c16write(recs, c16layout{header: 0, blank: true, finalNL: true}))
+		var cnt int64
+		try := func(lines []string) {
+			text := strings.Join(lines, "\n") + "\n" + body
+			var got map[string]rebase.Enzyme
+			cas := fmt.Sprintf("header prose lines %q", lines)
+			if len(cas) > 300 {
+				cas = cas[:300] + "..."
+			}
+			tags := []string{"has-suppliers", "first-table-letter", "indent=spaces", "prose"}
+			cnt++
+			if p := catch(func() { got = rebase.Parse([]byte(text)) }); p != "" {
+				r.Failf("no-panic", cas, tags, "a map", "panic: "+p)
+				return
+			}
+			c16check(r, cas, tags, recs, got)
+		}
+		for _, a := range dict {
+			try([]string{a})
+			for _, b := range dict {
+				try([]string{a, b})
+				for _, c := range dict {
+					if r.Enough() {
+						return
+					}
+					try([]string{a, b, c})
+				}
+			}
+		}
+		r.Eval(cnt)
+		r.AddStates(cnt)
+		r.AddTransitions(cnt)
+		r.AddNontrivial(cnt)
+		r.Bound("header-prose", fmt.Sprintf("every sequence of 1..3 lines over a dictionary of %d prose lines before the supplier table", len(dict)))
+	}})
 	return us
 }
 
